@@ -275,6 +275,17 @@ def corrupt(eng, f, g, c, tag):
         og = other.require_group("events")
         fds = og.create_dataset("bright_avg", data=np.arange(float(N)),
                                 chunks=(N,))
+        if c[1] == "deep-link":
+            # two levels below the root: /events/trace/<name>
+            tg = ev.require_group("trace") if "trace" not in ev else \
+                ev["trace"]
+            fd2 = og.create_dataset("fl2_raw", data=np.zeros((N, SAMPLES)),
+                                    chunks=(N, SAMPLES))
+            tg.members["fl2_raw"] = fd2
+            g.len["trace/fl2_raw"] = N
+            g.samples["fl2_raw"] = SAMPLES
+            g.external = "/events/trace/fl2_raw"
+            return
         if c[1] == "link":
             ev.members["bright_avg"] = fds
         elif c[1] == "virtual":
@@ -639,7 +650,8 @@ SINGLE = {
               ("count",)],
     "mask": [("len", "mask"), ("roi", "roi size x"), ("roi", "roi size y")],
     "maskonly": [("roi", "roi size x"), ("len", "mask")],
-    "fl": [("len", "trace/fl1_raw"), ("len", "fl1_max"), ("chcount",),
+    "fl": [("external", "deep-link"),
+           ("len", "trace/fl1_raw"), ("len", "fl1_max"), ("chcount",),
            ("lasercount",), ("laserpower", 1), ("spe",), ("count",)],
     "trace": [("chcount",), ("lasercount",), ("spe",),
               ("len", "trace/fl1_raw")],
@@ -827,6 +839,17 @@ def _real_corrupt(path, g, c, tag, vals):
             g.setup[(c[1], c[2])] = v
         elif kind == "external":
             d = os.path.dirname(path)
+            if c[1] == "deep-link":
+                with h5py.File(os.path.join(d, "other.rtdc"), "w") as o:
+                    o.create_dataset("events/trace/fl2_raw",
+                                     data=np.zeros((N, SAMPLES),
+                                                   dtype=np.int16))
+                ev.require_group("trace")["fl2_raw"] = h5py.ExternalLink(
+                    "other.rtdc", "/events/trace/fl2_raw")
+                g.len["trace/fl2_raw"] = N
+                g.samples["fl2_raw"] = SAMPLES
+                g.external = "/events/trace/fl2_raw"
+                return
             if c[1] == "link":
                 with h5py.File(os.path.join(d, "other.rtdc"), "w") as o:
                     o.create_dataset("events/bright_avg",
